@@ -60,8 +60,6 @@ def check_tables(m, viol, desc, after):
                 bad.append(f"recording of {s} refers to row {int(i)} which does not exist")
             if s not in comp_states + edge_states:
                 bad.append(f"recording of unknown state {s}")
-            elif s in nodes.columns and 0 <= int(i) < n and nodes[s].isna().to_numpy()[int(i)]:
-                bad.append(f"recording of {s} on compartment {int(i)}, where no channel has this state (NaN)")
     for key, inds in m.external_inds.items():
         lim = ne if key in edge_states else n
         if len(inds) != len(m.externals[key]):
@@ -70,8 +68,6 @@ def check_tables(m, viol, desc, after):
             bad.append(f"input {key} refers to a row that does not exist")
         elif key not in ("i", "v") and key not in comp_states + edge_states:
             bad.append(f"clamp of unknown state {key}")
-        elif key in nodes.columns and key not in ("i", "v") and any(nodes[key].isna().to_numpy()[int(i)] for i in np.asarray(inds)):
-            bad.append(f"clamp of {key} on a compartment where no channel has this state (NaN)")
     for g, rows in m.groups.items():
         if any(not (0 <= int(i) < n) for i in rows):
             bad.append(f"group {g} refers to a row that does not exist")
@@ -85,8 +81,6 @@ def check_tables(m, viol, desc, after):
             bad.append(f"trainable {key} refers to a row that does not exist")
         elif key not in nodes.columns and key not in m.edges.columns:
             bad.append(f"trainable {key} refers to a parameter that does not exist")
-        elif key in nodes.columns and all(nodes[key].isna().to_numpy()[int(i)] for i in np.asarray(inds).reshape(-1)):
-            bad.append(f"trainable {key} only covers compartments where no channel has this parameter (NaN)")
     for b in bad:
         viol.append(dict(desc, kind="tables are inconsistent: " + b, after_operation=after))
     return not bad
@@ -126,6 +120,91 @@ def rebuild(m):
                 else:
                     cell.select(nodes=[int(i)]).clamp(key, jnp.asarray(m.externals[key][j]))
     return cell
+
+
+def refs_correspondence(ctx, viol, distinct):
+    """Model/HistoryRefs.v against the code: random histories of insert / delete_channel / record(<channel state or
+    current>) / delete_recordings through random views of a small cell; compared are the acceptance of every call
+    and the final recordings (state, compartment).  C19_references_stay_known is a theorem about the model."""
+    import numpy as np
+    import jaxley as jx
+    import coqeval
+    from jaxley.channels import Leak, Na, K, Km
+    from simlib import quiet
+    rng = ctx.rng
+    CH = [Leak, Na, K, Km]
+    cols = []
+    for c in CH:
+        for k in list(c().channel_params) + list(c().channel_states) + [c().current_name]:
+            if k not in cols:
+                cols.append(k)
+    owns = "[" + "; ".join("[" + "; ".join(str(cols.index(k)) for k in list(c().channel_params) + list(c().channel_states) + [c().current_name]) + "]" for c in CH) + "]"
+    recordable = [k for c in CH for k in list(c().channel_states) + [c().current_name]]
+    nl = lambda xs: "[" + "; ".join(str(int(x)) for x in xs) + "]"
+    jobs, exprs = [], []
+    # scripted histories first: the state recorded only where the channel never was (F69), recorded where it is
+    # deleted (F65), and a shared current (i_K of K and Km) that survives the deletion of one of its owners
+    scripted = [
+        [("insert", 1, [0, 1]), ("ref", "Na_m", [0, 1, 2, 3]), ("unref", None, [0, 1]), ("delete", 1, [0, 1])],
+        [("insert", 1, [0, 1, 2, 3]), ("ref", "Na_m", [2]), ("delete", 1, [0, 1, 2, 3])],
+        [("insert", 2, [0, 1, 2, 3]), ("insert", 3, [0, 1, 2, 3]), ("ref", "i_K", [0]), ("delete", 2, [0, 1, 2, 3]), ("delete", 3, [0, 1, 2, 3])],
+        [("insert", 2, [0, 1]), ("insert", 3, [2, 3]), ("ref", "i_K", [0, 1, 2, 3]), ("delete", 2, [0, 1])],
+    ]
+    for it in range(ctx.budget(12, 120)):
+        with quiet():
+            cell = jx.Cell([jx.Branch(jx.Compartment(), 2)] * 2, parents=[-1, 0])
+        n = len(cell.nodes)
+        ops, acc, hist = [], [], []
+        script = scripted[it] if it < len(scripted) else None
+        for _k in range(len(script) if script else rng.randint(3, 9)):
+            if script:
+                kind, what, rows = script[_k]
+            else:
+                rows = sorted(rng.sample(range(n), rng.randint(1, n)))
+                kind = rng.choice(["insert", "insert", "delete", "delete", "ref", "ref", "unref"])
+                what = None
+            view = cell.select(nodes=rows)
+            with quiet():
+                if kind == "insert":
+                    k = rng.randrange(len(CH)) if what is None else what
+                    view.insert(CH[k]())
+                    ops.append(f"RInsert {k} {nl(rows)}"); acc.append(True); hist.append(f"insert {CH[k].__name__} on {rows}")
+                elif kind == "delete":
+                    k = rng.randrange(len(CH)) if what is None else what
+                    try:
+                        view.delete_channel(CH[k]())
+                        ok = True
+                    except ValueError:
+                        ok = False
+                    ops.append(f"RDelete {k} {nl(rows)}"); acc.append(ok); hist.append(f"delete_channel {CH[k].__name__} on {rows} -> {'ok' if ok else 'refused'}")
+                elif kind == "ref":
+                    st = rng.choice(recordable) if what is None else what
+                    try:
+                        view.record(st, verbose=False)
+                        ok = True
+                    except KeyError:
+                        ok = False
+                    ops.append(f"RRef {cols.index(st)} {nl(rows)}"); acc.append(ok); hist.append(f"record {st} on {rows} -> {'ok' if ok else 'refused'}")
+                else:
+                    view.delete_recordings()
+                    ops.append(f"RUnref {nl(rows)}"); acc.append(True); hist.append(f"delete_recordings on {rows}")
+        refs = sorted((cols.index(s_), int(i)) for s_, i in zip(cell.recordings.state, cell.recordings.rec_index)) if len(cell.recordings) else []
+        comp_states, _ = cell._get_state_names()
+        unknown = [s_ for s_ in (cell.recordings.state if len(cell.recordings) else []) if s_ not in comp_states]
+        exprs.append(f"let ow := fun k => nth k {owns} [] in let ops := [{'; '.join(ops)}] in "
+                     f"(accepted ow {len(CH)} rinit ops, (rrefs (rrun ow {len(CH)} rinit ops), refs_known ow {len(CH)} (rrun ow {len(CH)} rinit ops)))")
+        jobs.append((hist, acc, refs, unknown))
+        distinct.add(("refs", tuple(ops)))
+    import ast
+    outs = coqeval.coq_eval(["HistoryRefs"], exprs, prelude="Close Scope Q_scope. Open Scope nat_scope.", shard=8)
+    for (hist, acc, refs, unknown), o in zip(jobs, outs):
+        macc, (mrefs, mknown) = ast.literal_eval(o.replace("%nat", "").replace(";", ",").replace("true", "True").replace("false", "False"))
+        if list(macc) != acc or sorted(tuple(x) for x in mrefs) != refs:
+            viol.append({"kind": "the code's handling of references to channel states differs from Model/HistoryRefs.v (acceptance of the calls / final recordings)",
+                         "history": hist, "accepted_code": acc, "accepted_model": list(macc), "recordings_code": refs, "recordings_model": sorted(tuple(x) for x in mrefs)})
+        if unknown or not mknown:
+            viol.append({"kind": "a recording refers to a state that the module no longer knows", "history": hist, "unknown_states": unknown})
+    return len(jobs)
 
 
 def run(ctx):
@@ -591,6 +670,13 @@ def run(ctx):
         except Exception as ex:
             import traceback
             viol.append({"kind": "network history raised", "error": repr(ex)[:300], "trace": traceback.format_exc()[-500:]})
+    try:
+        nrefs = refs_correspondence(ctx, viol, distinct)
+    except Exception as ex:
+        import traceback
+        nrefs = 0
+        viol.append({"kind": "references correspondence could not be evaluated", "error": repr(ex)[:500], "trace": traceback.format_exc()[-800:], "no_failing_input_found": True})
+    evals += nrefs
     import regress
     evals += regress.run("C19", viol)
     for v in viol:
